@@ -247,6 +247,22 @@ class ReaderModel(object):
                         env[tgt.id] = env.get(tgt.id, set()) | ce[1]
                         if _round == 0:
                             note_children(ce[0], ce[1], n if isinstance(n, ast.For) else it)
+        # local helper functions handed an element: `def key(el): return el.attrib[..]` ... `key(position)` reads the attributes of `position`
+        nested = dict((d.name, d) for d in ast.walk(f) if isinstance(d, ast.FunctionDef) and d is not f)
+        bound = []
+        for n in list(nodes):
+            if isinstance(n, ast.Call) and isinstance(n.func, ast.Name) and n.func.id in nested and not n.keywords:
+                d = nested[n.func.id]
+                ps = [a.arg for a in d.args.args]
+                for i, a in enumerate(n.args):
+                    if i < len(ps) and isinstance(a, ast.Name) and a.id in env and ps[i] not in self.param_tags.get(mname, {}):
+                        t = var_tags(a.id, n)
+                        if t:
+                            env[ps[i]] = env.get(ps[i], set()) | t
+                            if d not in bound:
+                                bound.append(d)
+        for d in bound:
+            nodes.extend(x for x in P.walk_no_nested(d) if x is not d)
         # pass 2: calls and reads
         for n in nodes:
             if isinstance(n, ast.Call):
